@@ -242,7 +242,7 @@ def run(rep):
     sts = settings(quick)
     mclasses = money_classes()
     items = []
-    per = 6 if quick else 16
+    per = 6 if quick else 24
     for si, sh in enumerate(shapes):
         h = int(short_hash(sh), 16)
         for j in range(per):
@@ -261,7 +261,7 @@ def run(rep):
     # random doubles
     rng = random.Random(rep.seed * 4409 + 7)
     ritems = []
-    for i in range(4000 if quick else 40000):
+    for i in range(4000 if quick else 200000):
         e = rng.randint(-12, 15)
         mant = rng.randint(1, 10 ** rng.randint(1, 15))
         digs = str(mant)
